@@ -346,7 +346,7 @@ func c19exec(c *h.Ctx, cs *h.Case) {
 	}()
 	select {
 	case <-finished:
-	case <-time.After(20 * time.Second):
+	case <-time.After(8 * time.Second):
 		mu.Lock()
 		for len(res.impl) < len(res.ops) {
 			res.impl = append(res.impl, "hang")
